@@ -25,7 +25,7 @@ struct Step {
     int arg;  // future index or child id
 };
 using Script = std::vector<Step>;
-constexpr int MAXA = 4;
+constexpr int MAXA = 7;  // the wide wake-up family uses a starter and six waiters
 
 struct Env;
 static Env *g_env;
@@ -47,11 +47,11 @@ struct Ref {
     std::vector<int> D;              // resumed directly from normal code, one after another, before the queue is flushed
     int running = -1;
     std::vector<int> nest;           // coroutines that started a child with start(): they continue when the nested activation ends
-    int awaited_by[MAXA] = {-1, -1, -1, -1};  // co_await child: the awaiting coroutine gets a direct transfer when the child finishes
+    int awaited_by[MAXA] = {-1, -1, -1, -1, -1, -1, -1};  // co_await child: the awaiting coroutine gets a direct transfer when the child finishes
     std::vector<int> allowed;        // who may produce the next event (empty + running>=0: the running one continues)
     bool expect_continue = false;
-    int pc[MAXA] = {0, 0, 0, 0};       // next step index
-    int state[MAXA] = {0, 0, 0, 0};    // 0 not started, 1 running/ready, 2 blocked, 3 finished
+    int pc[MAXA] = {};      // next step index
+    int state[MAXA] = {};   // 0 not started, 1 running/ready, 2 blocked, 3 finished
     bool failed = false;
     std::string trace;
 
@@ -332,7 +332,7 @@ struct Env {
     cocls::future<void> cf[MAXA];
     Ref ref;
     int finished = 0;
-    int active[MAXA] = {0, 0, 0, 0};
+    int active[MAXA] = {};
 };
 
 static cocls::async<void> actor(Env &e, int id);
@@ -541,8 +541,28 @@ static void enumerate(seqx::Runner &R, int N, int maxlen, int nfut, std::vector<
 
 }  // namespace
 
+// one operation readies 1..6 coroutines at once (beyond the suspend point's inline capacity of three): a starter spawns
+// n waiters of one future and resolves it, discarding or awaiting the suspend point
+static void wide_family(seqx::Runner &R) {
+    for (int n = 1; n <= 6; n++)
+        for (int res : {RESD, RESA})
+            for (int tail = 0; tail < 3; tail++)
+                for (int entry = 0; entry < 2; entry++) {
+                    std::vector<Script> scripts((size_t)n + 1);
+                    for (int j = 1; j <= n; j++) {
+                        scripts[0].push_back({j % 2 ? DETD : DETA, j});
+                        scripts[(size_t)j].push_back({AW, 0});
+                        if (tail == 1 || (tail == 2 && j % 2)) scripts[(size_t)j].push_back({PAUSE, 0});
+                    }
+                    scripts[0].push_back({res, 0});
+                    if (tail) scripts[0].push_back({PAUSE, 0});
+                    if (R.next_case()) run_program(R, entry, scripts);
+                }
+}
+
 void seqx_run(seqx::Runner &R, const std::string &tier) {
     seq_warmup();
+    wide_family(R);
     std::vector<int> full;
     for (int k = 0; k < NSK; k++) full.push_back(k);
     if (tier == "quick") {
